@@ -82,9 +82,34 @@ SINGLE_LIMIT = int(os.environ.get('VERIF_CASE_LIMIT', '30'))
 MULTI_LIMIT = int(os.environ.get('VERIF_MP_CASE_LIMIT', '60'))
 
 
+_COV = None
+
+
+def cov_start():
+    """ analysis aid (tools/coverage_quick.sh), not part of any check: with VERIF_COVERAGE=<dir>
+    every process that imports searchkit records which lines / branches of it run """
+    global _COV  # pylint: disable=global-statement
+    cdir = os.environ.get('VERIF_COVERAGE')
+    if not cdir or _COV is not None:
+        return
+    import coverage  # pylint: disable=import-outside-toplevel
+    _COV = coverage.Coverage(config_file=os.path.join(cdir, 'rc'))
+    _COV.start()
+    import atexit  # pylint: disable=import-outside-toplevel
+    atexit.register(cov_save)
+
+
+def cov_save():
+    if _COV is not None:
+        _COV.stop()
+        _COV.save()
+        _COV.start()
+
+
 def import_searchkit():
     """ Import searchkit from REPO (never a copy) and return the package. """
     sys.dont_write_bytecode = True
+    cov_start()
     if REPO not in sys.path:
         sys.path.insert(0, REPO)
     import searchkit  # pylint: disable=import-outside-toplevel
@@ -308,6 +333,8 @@ def _shard_entry(args):
         return ('ok', fn(random.Random(shard_seed), count, extra))
     except Exception:  # pylint: disable=broad-except
         return ('exc', traceback.format_exc())
+    finally:
+        cov_save()
 
 
 def run_sharded(fn, seed, total, extra=None, shards=None, workers=None):
